@@ -1116,4 +1116,435 @@ theorem cdt_add (eq : PrimitiveEquations K M N) (aux : Diag N) (rT Y : List N) (
       module
 
 end laws
+
+/-! ## assembling the total tendency -/
+section assembly
+set_option linter.unusedSectionVars false
+variable {K M N : Type} [Field K] [DecidableEq K] [AddCommGroup M] [Module K M] [CommRing N] [Algebra K N]
+
+/-- the same state with another temperature-variation column -/
+def State.withT (s : State M) (t : List M) : State M := { s with temperatureVariation := t }
+
+/-- `T' + dT • 1` in the spectral basis (`_add_constant` level by level) -/
+def shiftM (h : HOps K M N) (x : List M) (dT : List K) : List M :=
+  List.zipWith (fun t (d : K) => t + d • h.oneModal) x dT
+
+/-- shapes of an `n`-layer problem -/
+structure Shaped (eq : PrimitiveEquations K M N) (s : State M) (n : ℕ) : Prop where
+  pos : 0 < n
+  hb : eq.vert.boundaries.length = n + 1
+  hlc : eq.vert.logCenters.length = n
+  tr : eq.referenceTemperature.length = n
+  z : s.vorticity.length = n
+  d : s.divergence.length = n
+  t : s.temperatureVariation.length = n
+
+/-- admissible states: top total wavenumber clipped, divergence without a (0,0) mode -/
+structure Admissible (h : HOps K M N) (s : State M) : Prop where
+  vort_clip : ∀ z ∈ s.vorticity, h.clip z = z
+  div_clip : ∀ d ∈ s.divergence, h.clip d = d
+  div_mean : ∀ d ∈ s.divergence, h.laplacian (h.inverseLaplacian d) = d
+  lsp_clip : h.clip s.logSurfacePressure = s.logSurfacePressure
+
+theorem diag_shaped (eq : PrimitiveEquations K M N) (s : State M) (n : ℕ) (S : Shaped eq s n) :
+    DiagShaped eq (computeDiagnosticState eq.ops eq.vert s) n :=
+  { pos := S.pos
+    ds := vert_ds_length _ n S.hb
+    al := vert_alpha_length _ n S.hlc
+    ctc := vert_ctc_length _ n S.hb
+    tr := S.tr
+    z := by simp [computeDiagnosticState, S.z]
+    d := by simp [computeDiagnosticState, S.d]
+    t := by simp [computeDiagnosticState, S.t]
+    u := by simp [computeDiagnosticState, S.z, S.d]
+    v := by simp [computeDiagnosticState, S.z, S.d]
+    g := by simp [computeDiagnosticState, S.z, S.d]
+    sde := rfl
+    sdf := rfl }
+
+theorem diag_shift (h : HOps K M N) (v : Vert K) (s : State M) (dT : List K) (L : Laws h) :
+    computeDiagnosticState h v (s.withT (shiftM h s.temperatureVariation dT))
+      = (computeDiagnosticState h v s).withT
+          (shiftN (computeDiagnosticState h v s).temperatureVariation dT) := by
+  have : (shiftM h s.temperatureVariation dT).map h.toNodal
+      = shiftN (s.temperatureVariation.map h.toNodal) dT := by
+    unfold shiftM shiftN
+    rw [List.map_zipWith, List.zipWith_map_left]
+    congr 1
+    funext t d
+    rw [L.toNodal_lin.map_add, L.toNodal_lin.map_smul, L.toNodal_one]
+  simp only [computeDiagnosticState, State.withT, Diag.withT, this]
+
+
+theorem smul_shiftN (R : K) (x : List N) (dT : List K) :
+    Col.smul R (shiftN x dT) = Col.add (Col.smul R x) (dT.map fun d => (R * d) • (1 : N)) := by
+  apply List.ext_getElem
+  · simp [Col.smul, shiftN, Col.add]
+  · intro i h1 h2
+    simp only [Col.smul, shiftN, Col.add, List.getElem_map, List.getElem_zipWith, smul_add, smul_smul]
+
+theorem geopotentialWeights_length (R : K) (al : List K) :
+    (Sigma.geopotentialWeights R al).length = al.length := by
+  induction al with
+  | nil => rfl
+  | cons a t ih => simp [Sigma.geopotentialWeights, ih]
+
+theorem cdt_length (eq : PrimitiveEquations K M N) (aux : Diag N) (rT : List N) (n : ℕ)
+    (hn : 0 < n) (hz : aux.vorticity.length = n) (hu : aux.cosLatU.1.length = n)
+    (hv : aux.cosLatU.2.length = n) (hr : rT.length = n)
+    (hsdf : aux.sigmaDotFull.length = n - 1) (hctc : eq.vert.ctc.length = n - 1) :
+    (eq.curlAndDivTendenciesWith aux rT).1.length = n ∧ (eq.curlAndDivTendenciesWith aux rT).2.length = n := by
+  unfold PrimitiveEquations.curlAndDivTendenciesWith
+  simp only []
+  have hlU : (if eq.includeVerticalAdvection = true
+      then Col.neg (eq.verticalTendency aux.sigmaDotFull aux.cosLatU.1)
+      else Col.zerosLike aux.cosLatU.1).length = n := by
+    split_ifs
+    · simp [Col.neg, PrimitiveEquations.verticalTendency,
+        centeredAdvection_length eq.vert.ctc _ _ n hn hctc hsdf hu]
+    · simp [Col.zerosLike, hu]
+  have hlV : (if eq.includeVerticalAdvection = true
+      then Col.neg (eq.verticalTendency aux.sigmaDotFull aux.cosLatU.2)
+      else Col.zerosLike aux.cosLatU.2).length = n := by
+    split_ifs
+    · simp [Col.neg, PrimitiveEquations.verticalTendency,
+        centeredAdvection_length eq.vert.ctc _ _ n hn hctc hsdf hv]
+    · simp [Col.zerosLike, hv]
+  generalize (if eq.includeVerticalAdvection = true
+      then Col.neg (eq.verticalTendency aux.sigmaDotFull aux.cosLatU.1)
+      else Col.zerosLike aux.cosLatU.1) = sdU at hlU
+  generalize (if eq.includeVerticalAdvection = true
+      then Col.neg (eq.verticalTendency aux.sigmaDotFull aux.cosLatU.2)
+      else Col.zerosLike aux.cosLatU.2) = sdV at hlV
+  constructor <;> simp [Col.add, hz, hu, hv, hr, hlU, hlV]
+
+/-- vorticity: the `dT`-weighted pressure gradient has no curl -/
+theorem clip_curl_shift (h : HOps K M N) (L : Laws h) (p : M) (hp : h.clip p = p) (R : K) (Z : List M)
+    (dT : List K) (hl : Z.length = dT.length) :
+    (List.zipWith (fun z y => z - h.curlCosLat false (weightedGradSec2 h y (nodalGrad h p))) Z
+        (dT.map fun d => (R * d) • (1 : N))).map h.clip = Z.map h.clip := by
+  apply List.ext_getElem
+  · simp [hl]
+  · intro i h1 h2
+    simp only [List.getElem_map, List.getElem_zipWith]
+    rw [L.weighted_smul, L.curlCosLat_smul, L.clip_lin.map_sub, L.clip_lin.map_smul, L.curl_grad p hp]
+    simp
+
+/-- divergence: the `dT`-weighted pressure gradient has divergence `dT·∇²p` -/
+theorem clip_div_shift (h : HOps K M N) (L : Laws h) (p : M) (hp : h.clip p = p) (R : K) (Z : List M)
+    (dT : List K) (hl : Z.length = dT.length) :
+    (List.zipWith (fun z y => z - h.divCosLat false (weightedGradSec2 h y (nodalGrad h p))) Z
+        (dT.map fun d => (R * d) • (1 : N))).map h.clip
+      = List.zipWith (fun z (d : K) => h.clip z - (R * d) • h.laplacian p) Z dT := by
+  apply List.ext_getElem
+  · simp [hl]
+  · intro i h1 h2
+    simp only [List.getElem_map, List.getElem_zipWith]
+    rw [L.weighted_smul, L.divCosLat_smul, L.clip_lin.map_sub, L.clip_lin.map_smul, L.div_grad p hp]
+
+/-- the implicit divergence tendency under the shift -/
+theorem implicit_div_shift (eq : PrimitiveEquations K M N) (L : Laws eq.ops) (T : List M) (p : M)
+    (dT : List K) (n : ℕ) (hal : eq.vert.alpha.length = n) (htr : eq.referenceTemperature.length = n)
+    (hT : T.length = n) (hd : dT.length = n) :
+    (Col.add ((withTRef eq (Col.sub eq.referenceTemperature dT)).geopotentialDiff (shiftM eq.ops T dT))
+        ((Col.sub eq.referenceTemperature dT).map fun t => (eq.phys.R * t) • p)).map
+          (fun x => -(eq.ops.laplacian x))
+      = List.zipWith (fun y (d : K) => y + (eq.phys.R * d) • eq.ops.laplacian p)
+          ((Col.add (eq.geopotentialDiff T) (eq.referenceTemperature.map fun t => (eq.phys.R * t) • p)).map
+            (fun x => -(eq.ops.laplacian x))) dT := by
+  show (Col.add (Col.matvec (Sigma.geopotentialWeights eq.phys.R eq.vert.alpha) (shiftM eq.ops T dT)) _).map _
+    = List.zipWith _ ((Col.add (Col.matvec (Sigma.geopotentialWeights eq.phys.R eq.vert.alpha) T) _).map _) dT
+  rw [shiftM, matvec_shift _ _ _ _ (by rw [hT, hd])]
+  apply List.ext_getElem
+  · simp [Col.add, Col.sub, Col.matvec, geopotentialWeights_length, hal, htr, hd]
+  · intro i h1 h2
+    simp only [List.getElem_map, List.getElem_zipWith, Col.add, Col.sub]
+    simp only [L.laplacian_lin.map_add, L.laplacian_lin.map_smul, L.lap_one]
+    module
+
+
+theorem lv_mem {V : Type} [Zero V] (x : List V) (i : ℕ) (h : i < x.length) : lv x i ∈ x := by
+  have : lv x i = x[i] := by simp [lv_def, List.getElem?_eq_getElem h]
+  rw [this]; exact List.getElem_mem h
+
+theorem Laws.divSecLat_shift {h : HOps K M N} (L : Laws h) (u v a : N) (d : K) :
+    h.divSecLat (u * (a + d • (1 : N))) (v * (a + d • (1 : N)))
+      = h.divSecLat (u * a) (v * a) + d • h.divSecLat u v := by
+  unfold HOps.divSecLat
+  have e1 : u * (a + d • (1 : N)) * h.sec2Lat = u * a * h.sec2Lat + d • (u * h.sec2Lat) := by
+    simp only [mul_add, mul_smul_comm, mul_one, add_mul, smul_mul_assoc]
+  have e2 : v * (a + d • (1 : N)) * h.sec2Lat = v * a * h.sec2Lat + d • (v * h.sec2Lat) := by
+    simp only [mul_add, mul_smul_comm, mul_one, add_mul, smul_mul_assoc]
+  rw [e1, e2, L.toModal_lin.map_add, L.toModal_lin.map_add, L.toModal_lin.map_smul,
+    L.toModal_lin.map_smul]
+  rw [← L.divCosLat_smul, ← L.divCosLat_add]
+
+theorem vertTend_length (eq : PrimitiveEquations K M N) (aux : Diag N) (n : ℕ) (S : DiagShaped eq aux n)
+    (hinc : eq.includeVerticalAdvection = true) :
+    (eq.nodalTemperatureVerticalTendency aux).length = n := by
+  unfold PrimitiveEquations.nodalTemperatureVerticalTendency PrimitiveEquations.verticalTendency
+  rw [hinc]
+  simp only [if_true]
+  have l1 := centeredAdvection_length eq.vert.ctc aux.sigmaDotFull aux.temperatureVariation n S.pos
+    S.ctc S.sdf_len S.t
+  have l2 := centeredAdvection_length eq.vert.ctc aux.sigmaDotExplicit eq.tRef n S.pos
+    S.ctc S.sde_len (by simp [PrimitiveEquations.tRef, S.tr])
+  split_ifs
+  · simp [Col.add, l1, l2]
+  · exact l1
+
+theorem adiabatic_length (eq : PrimitiveEquations K M N) (aux : Diag N) (n : ℕ) (S : DiagShaped eq aux n) :
+    (eq.nodalTemperatureAdiabaticTendency aux).length = n := by
+  unfold PrimitiveEquations.nodalTemperatureAdiabaticTendency
+  simp only [tOmega_eq]
+  have hg1 := gPart_length eq.vert.ds eq.vert.alpha aux.uDotGradLogSp n S.ds S.al S.g
+  have hg2 := gPart_length eq.vert.ds eq.vert.alpha (Col.add aux.uDotGradLogSp aux.divergence) n S.ds S.al
+    (by simp [Col.add, S.g, S.d])
+  simp only [Col.add] at hg2
+  simp [Col.smul, Col.add, Col.mul, Col.sub, PrimitiveEquations.tRef, S.tr, S.g, S.t, hg1, hg2]
+
+/-- the temperature tendency before clipping, level by level, for any adiabatic column -/
+theorem lv_temperatureTendency (eq : PrimitiveEquations K M N) (aux : Diag N) (adiab : List N) (n : ℕ)
+    (S : DiagShaped eq aux n) (hinc : eq.includeVerticalAdvection = true) (ha : adiab.length = n)
+    (i : ℕ) (hi : i < n) :
+    lv (eq.thermoTendencies aux adiab).1 i
+      = eq.ops.toModal (lv aux.temperatureVariation i * lv aux.divergence i
+            + lv (eq.nodalTemperatureVerticalTendency aux) i + lv adiab i)
+        + -(eq.ops.divSecLat (lv aux.cosLatU.1 i * lv aux.temperatureVariation i)
+              (lv aux.cosLatU.2 i * lv aux.temperatureVariation i)) := by
+  unfold PrimitiveEquations.thermoTendencies PrimitiveEquations.horizontalScalarAdvection
+  have lv1 := vertTend_length eq aux n S hinc
+  simp only []
+  rw [lv_add _ _ (by simp [Col.add, Col.mul, S.t, S.d, S.u, S.v, lv1, ha]),
+    lv_map _ _ (by simp [Col.add, Col.mul, S.t, S.d, lv1, ha]; exact hi),
+    lv_add _ _ (by simp [Col.add, Col.mul, S.t, S.d, lv1, ha]),
+    lv_add _ _ (by simp [Col.mul, S.t, S.d, lv1]), lv_mul,
+    lv_zipWith _ _ _ (by simp [Col.mul, S.t, S.u]; exact hi) (by simp [Col.mul, S.t, S.v]; exact hi),
+    lv_mul, lv_mul]
+
+end assembly
+
+section assembly2
+set_option linter.unusedSectionVars false
+variable {K M N : Type} [Field K] [DecidableEq K] [AddCommGroup M] [Module K M] [CommRing N] [Algebra K N]
+
+/-- `clip ∘ to_modal` of the explicit reference formulas on the nodal divergence is `H(dT)·δ` -/
+theorem clip_toModal_refTerms (eq : PrimitiveEquations K M N) (s : State M) (dT : List K) (n : ℕ)
+    (L : Laws eq.ops) (A : Admissible eq.ops s) (S : Shaped eq s n) (hd : dT.length = n)
+    (h2 : (1 + 1 : K) ≠ 0) (i : ℕ) (hi : i < n) :
+    eq.ops.clip (eq.ops.toModal (lv (refTerms eq.vert eq.phys.kappa dT (s.divergence.map eq.ops.toNodal)) i))
+      = lv (Col.matvec (Implicit.hMatrix eq.vert.ds dT eq.vert.alpha eq.phys.kappa) s.divergence) i := by
+  have hE : refTerms eq.vert eq.phys.kappa dT (s.divergence.map eq.ops.toNodal)
+      = Col.matvec (Implicit.hMatrix eq.vert.ds dT eq.vert.alpha eq.phys.kappa)
+          (s.divergence.map eq.ops.toNodal) :=
+    (hMatrix_matvec_vert eq.vert dT eq.phys.kappa _ n S.hb S.hlc hd (by simp [S.d]) h2).symm
+  have hlen : (Col.matvec (Implicit.hMatrix eq.vert.ds dT eq.vert.alpha eq.phys.kappa)
+      (s.divergence.map eq.ops.toNodal)).length = n := by
+    simp [Col.matvec, Implicit.hMatrix, vert_ds_length _ n S.hb]
+  rw [hE, ← lv_map eq.ops.toModal _ (by rw [hlen]; exact hi), map_matvec _ L.toModal_lin,
+    ← lv_map eq.ops.clip _ (by simp [Col.matvec, Implicit.hMatrix, vert_ds_length _ n S.hb]; exact hi),
+    map_matvec _ L.clip_lin, List.map_map, List.map_map]
+  congr 2
+  conv_rhs => rw [← List.map_id s.divergence]
+  apply List.map_congr_left
+  intro d hdm
+  exact L.roundtrip d (A.div_clip d hdm)
+
+
+theorem temperatureImplicit_length (eq : PrimitiveEquations K M N) (d : List M) (n : ℕ)
+    (hds : eq.vert.ds.length = n) : (eq.temperatureImplicit d).length = n := by
+  simp [PrimitiveEquations.temperatureImplicit, PrimitiveEquations.temperatureImplicitWeights,
+    Col.matvec, Implicit.negMat, Implicit.hMatrix, hds]
+
+theorem thermo_length (eq : PrimitiveEquations K M N) (aux : Diag N) (adiab : List N) (n : ℕ)
+    (S : DiagShaped eq aux n) (hinc : eq.includeVerticalAdvection = true) (ha : adiab.length = n) :
+    (eq.thermoTendencies aux adiab).1.length = n := by
+  unfold PrimitiveEquations.thermoTendencies PrimitiveEquations.horizontalScalarAdvection
+  have lv1 := vertTend_length eq aux n S hinc
+  simp [Col.add, Col.mul, S.t, S.d, S.u, S.v, lv1, ha]
+
+/-- **temperature equation**: clipped explicit + implicit tendency is unchanged by the shift -/
+theorem temperature_field (eq : PrimitiveEquations K M N) (s : State M) (dT : List K) (n : ℕ)
+    (L : Laws eq.ops) (A : Admissible eq.ops s) (S : Shaped eq s n) (hd : dT.length = n)
+    (hinc : eq.includeVerticalAdvection = true) (h2 : (1 + 1 : K) ≠ 0)
+    (adiab1 adiab2 : List N) (ha1 : adiab1.length = n) (ha2 : adiab2.length = n)
+    (hadiab : ∀ i, i < n →
+      lv ((withTRef eq (Col.sub eq.referenceTemperature dT)).nodalTemperatureVerticalTendency
+          ((computeDiagnosticState eq.ops eq.vert s).withT
+            (shiftN (computeDiagnosticState eq.ops eq.vert s).temperatureVariation dT))) i + lv adiab2 i
+      = lv (eq.nodalTemperatureVerticalTendency (computeDiagnosticState eq.ops eq.vert s)) i + lv adiab1 i
+        - lv (refTerms eq.vert eq.phys.kappa dT (computeDiagnosticState eq.ops eq.vert s).divergence) i) :
+    Col.add (((withTRef eq (Col.sub eq.referenceTemperature dT)).thermoTendencies
+          ((computeDiagnosticState eq.ops eq.vert s).withT
+            (shiftN (computeDiagnosticState eq.ops eq.vert s).temperatureVariation dT)) adiab2).1.map eq.ops.clip)
+        ((withTRef eq (Col.sub eq.referenceTemperature dT)).temperatureImplicit s.divergence)
+      = Col.add ((eq.thermoTendencies (computeDiagnosticState eq.ops eq.vert s) adiab1).1.map eq.ops.clip)
+          (eq.temperatureImplicit s.divergence) := by
+  have Sd := diag_shaped eq s n S
+  have Sd2 := Sd.shift dT hd
+  have hds := vert_ds_length eq.vert n S.hb
+  have l2 := thermo_length _ _ adiab2 n Sd2 hinc ha2
+  have l1 := thermo_length eq _ adiab1 n Sd hinc ha1
+  have li2 := temperatureImplicit_length (withTRef eq (Col.sub eq.referenceTemperature dT)) s.divergence n hds
+  have li1 := temperatureImplicit_length eq s.divergence n hds
+  apply ext_lv (n := n)
+  · simp [Col.add, l2, li2]
+  · simp [Col.add, l1, li1]
+  intro i hi
+  rw [lv_add _ _ (by simp [l2, li2]), lv_add _ _ (by simp [l1, li1]),
+    lv_map _ _ (by rw [l2]; exact hi), lv_map _ _ (by rw [l1]; exact hi),
+    lv_temperatureTendency _ _ adiab2 n Sd2 hinc ha2 i hi, lv_temperatureTendency eq _ adiab1 n Sd hinc ha1 i hi]
+  -- the implicit halves
+  have hi2 : lv ((withTRef eq (Col.sub eq.referenceTemperature dT)).temperatureImplicit s.divergence) i
+      = -(lv (Col.matvec (Implicit.hMatrix eq.vert.ds eq.referenceTemperature eq.vert.alpha eq.phys.kappa)
+            s.divergence) i
+          - lv (Col.matvec (Implicit.hMatrix eq.vert.ds dT eq.vert.alpha eq.phys.kappa) s.divergence) i) := by
+    show lv (Col.matvec (Implicit.negMat (Implicit.hMatrix eq.vert.ds (Col.sub eq.referenceTemperature dT)
+      eq.vert.alpha eq.phys.kappa)) s.divergence) i = _
+    rw [matvec_negMat, lv_neg, hMatrix_sub _ _ _ _ _ _ n hds S.d (by rw [S.tr, hd]),
+      lv_sub _ _ (by simp [Col.matvec, Implicit.hMatrix])]
+  have hi1 : lv (eq.temperatureImplicit s.divergence) i
+      = -(lv (Col.matvec (Implicit.hMatrix eq.vert.ds eq.referenceTemperature eq.vert.alpha eq.phys.kappa)
+            s.divergence) i) := by
+    show lv (Col.matvec (Implicit.negMat (Implicit.hMatrix eq.vert.ds eq.referenceTemperature
+      eq.vert.alpha eq.phys.kappa)) s.divergence) i = _
+    rw [matvec_negMat, lv_neg]
+  rw [hi2, hi1]
+  -- the explicit halves
+  have hT2 : lv (shiftN (computeDiagnosticState eq.ops eq.vert s).temperatureVariation dT) i
+      = lv (computeDiagnosticState eq.ops eq.vert s).temperatureVariation i + lv dT i • (1 : N) := by
+    rw [shiftN, lv_zipWith _ _ _ (by rw [Sd.t]; exact hi) (by rw [hd]; exact hi)]
+  show eq.ops.clip (eq.ops.toModal
+        (lv (shiftN (computeDiagnosticState eq.ops eq.vert s).temperatureVariation dT) i
+            * lv (computeDiagnosticState eq.ops eq.vert s).divergence i
+          + lv ((withTRef eq (Col.sub eq.referenceTemperature dT)).nodalTemperatureVerticalTendency
+              ((computeDiagnosticState eq.ops eq.vert s).withT
+                (shiftN (computeDiagnosticState eq.ops eq.vert s).temperatureVariation dT))) i
+          + lv adiab2 i)
+      + -(eq.ops.divSecLat
+          (lv (computeDiagnosticState eq.ops eq.vert s).cosLatU.1 i
+            * lv (shiftN (computeDiagnosticState eq.ops eq.vert s).temperatureVariation dT) i)
+          (lv (computeDiagnosticState eq.ops eq.vert s).cosLatU.2 i
+            * lv (shiftN (computeDiagnosticState eq.ops eq.vert s).temperatureVariation dT) i))) + _ = _
+  have hth := hadiab i hi
+  have hF1 := clip_toModal_refTerms eq s dT n L A S hd h2 i hi
+  have hdn : lv (computeDiagnosticState eq.ops eq.vert s).divergence i = eq.ops.toNodal (lv s.divergence i) := by
+    show lv (s.divergence.map eq.ops.toNodal) i = _
+    rw [lv_map _ _ (by rw [S.d]; exact hi)]
+  have hmem := lv_mem s.divergence i (by rw [S.d]; exact hi)
+  have hF2 : eq.ops.clip (eq.ops.toModal (eq.ops.toNodal (lv s.divergence i))) = lv s.divergence i :=
+    L.roundtrip _ (A.div_clip _ hmem)
+  have hu : lv (computeDiagnosticState eq.ops eq.vert s).cosLatU.1 i
+      = eq.ops.toNodal (eq.ops.cosLatVector false (lv s.vorticity i) (lv s.divergence i)).1 := by
+    show lv ((List.zipWith (fun z d => eq.ops.cosLatVector false z d) s.vorticity s.divergence).map _) i = _
+    rw [lv_map _ _ (by simp [S.z, S.d]; exact hi), lv_zipWith _ _ _ (by rw [S.z]; exact hi) (by rw [S.d]; exact hi)]
+  have hv : lv (computeDiagnosticState eq.ops eq.vert s).cosLatU.2 i
+      = eq.ops.toNodal (eq.ops.cosLatVector false (lv s.vorticity i) (lv s.divergence i)).2 := by
+    show lv ((List.zipWith (fun z d => eq.ops.cosLatVector false z d) s.vorticity s.divergence).map _) i = _
+    rw [lv_map _ _ (by simp [S.z, S.d]; exact hi), lv_zipWith _ _ _ (by rw [S.z]; exact hi) (by rw [S.d]; exact hi)]
+  have hF3 := L.div_uv (lv s.vorticity i) (lv s.divergence i)
+    (A.vort_clip _ (lv_mem s.vorticity i (by rw [S.z]; exact hi))) (A.div_clip _ hmem) (A.div_mean _ hmem)
+  rw [← hu, ← hv] at hF3
+  have hE : (computeDiagnosticState eq.ops eq.vert s).divergence = s.divergence.map eq.ops.toNodal := rfl
+  rw [hE] at hth
+  generalize lv ((withTRef eq (Col.sub eq.referenceTemperature dT)).nodalTemperatureVerticalTendency
+              ((computeDiagnosticState eq.ops eq.vert s).withT
+                (shiftN (computeDiagnosticState eq.ops eq.vert s).temperatureVariation dT))) i = V2 at *
+  generalize lv (eq.nodalTemperatureVerticalTendency (computeDiagnosticState eq.ops eq.vert s)) i = V1 at *
+  generalize lv (refTerms eq.vert eq.phys.kappa dT (s.divergence.map eq.ops.toNodal)) i = E at *
+  rw [hT2, hdn]
+  generalize lv (computeDiagnosticState eq.ops eq.vert s).temperatureVariation i = a at *
+  generalize lv (computeDiagnosticState eq.ops eq.vert s).cosLatU.1 i = u at *
+  generalize lv (computeDiagnosticState eq.ops eq.vert s).cosLatU.2 i = v at *
+  have e : (a + lv dT i • (1 : N)) * eq.ops.toNodal (lv s.divergence i) + V2 + lv adiab2 i
+      = (a * eq.ops.toNodal (lv s.divergence i) + V1 + lv adiab1 i)
+        + lv dT i • eq.ops.toNodal (lv s.divergence i) - E := by
+    rw [add_assoc, hth, add_mul, smul_mul_assoc, one_mul]
+    module
+  rw [e, L.divSecLat_shift]
+  simp only [L.toModal_lin.map_add, L.toModal_lin.map_sub, L.toModal_lin.map_smul,
+    L.clip_lin.map_add, L.clip_lin.map_sub, L.clip_lin.map_smul, L.clip_lin.map_neg, hF1, hF2, hF3]
+  module
+
+
+/-- **divergence equation**: clipped explicit + implicit tendency is unchanged by the shift -/
+theorem divergence_field (eq : PrimitiveEquations K M N) (L : Laws eq.ops) (p : M) (hp : eq.ops.clip p = p)
+    (D ke T : List M) (oro : M) (dT : List K) (n : ℕ) (hal : eq.vert.alpha.length = n)
+    (htr : eq.referenceTemperature.length = n) (hT : T.length = n) (hd : dT.length = n)
+    (hD : D.length = n) (hke : ke.length = n) :
+    Col.add (List.map eq.ops.clip (Col.addLevel (Col.add
+          (List.zipWith (fun d y => d - eq.ops.divCosLat false (weightedGradSec2 eq.ops y (nodalGrad eq.ops p))) D
+            (dT.map fun d => (eq.phys.R * d) • (1 : N))) ke) oro))
+        ((Col.add ((withTRef eq (Col.sub eq.referenceTemperature dT)).geopotentialDiff (shiftM eq.ops T dT))
+          ((Col.sub eq.referenceTemperature dT).map fun t => (eq.phys.R * t) • p)).map
+            (fun x => -(eq.ops.laplacian x)))
+      = Col.add (List.map eq.ops.clip (Col.addLevel (Col.add D ke) oro))
+          ((Col.add (eq.geopotentialDiff T) (eq.referenceTemperature.map fun t => (eq.phys.R * t) • p)).map
+            (fun x => -(eq.ops.laplacian x))) := by
+  rw [implicit_div_shift eq L T p dT n hal htr hT hd]
+  have hg : (eq.geopotentialDiff T).length = n := by
+    simp [PrimitiveEquations.geopotentialDiff, Col.matvec, geopotentialWeights_length, hal]
+  apply List.ext_getElem
+  · simp [Col.add, Col.addLevel, hD, hke, hd, hg, htr]
+  · intro i h1 h2
+    simp only [Col.add, Col.addLevel, List.getElem_map, List.getElem_zipWith]
+    rw [L.weighted_smul, L.divCosLat_smul]
+    simp only [L.clip_lin.map_add, L.clip_lin.map_sub, L.clip_lin.map_smul, L.div_grad p hp]
+    module
+
+/-- `explicit + implicit` (the full tendency), as a `State` -/
+def total (eq : PrimitiveEquations K M N) (s : State M) : State M :=
+  State.add (eq.explicitTerms s) (eq.implicitTerms s)
+
+theorem State.ext' {a b : State M} (h1 : a.vorticity = b.vorticity) (h2 : a.divergence = b.divergence)
+    (h3 : a.temperatureVariation = b.temperatureVariation)
+    (h4 : a.logSurfacePressure = b.logSurfacePressure) (h5 : a.tracers = b.tracers) : a = b := by
+  cases a; cases b; simp_all
+
+/-- **the dry total tendency is invariant under the shift** `T_ref → T_ref − dT`, `T' → T' + dT·1` -/
+theorem total_shift (eq : PrimitiveEquations K M N) (s : State M) (dT : List K) (n : ℕ)
+    (L : Laws eq.ops) (A : Admissible eq.ops s) (S : Shaped eq s n) (hd : dT.length = n)
+    (hinc : eq.includeVerticalAdvection = true) (h2 : (1 + 1 : K) ≠ 0) :
+    total (withTRef eq (Col.sub eq.referenceTemperature dT))
+        (s.withT (shiftM eq.ops s.temperatureVariation dT))
+      = total eq s := by
+  have Sd := diag_shaped eq s n S
+  have hdg : computeDiagnosticState (withTRef eq (Col.sub eq.referenceTemperature dT)).ops
+      (withTRef eq (Col.sub eq.referenceTemperature dT)).vert
+      (s.withT (shiftM eq.ops s.temperatureVariation dT))
+      = (computeDiagnosticState eq.ops eq.vert s).withT
+          (shiftN (computeDiagnosticState eq.ops eq.vert s).temperatureVariation dT) :=
+    diag_shift eq.ops eq.vert s dT L
+  have hcl := cdt_length eq (computeDiagnosticState eq.ops eq.vert s)
+    (Col.smul eq.phys.R (computeDiagnosticState eq.ops eq.vert s).temperatureVariation) n S.pos Sd.z Sd.u Sd.v
+    (by simp [Col.smul, Sd.t]) Sd.sdf_len Sd.ctc
+  have hcd : (withTRef eq (Col.sub eq.referenceTemperature dT)).curlAndDivTendencies
+      ((computeDiagnosticState eq.ops eq.vert s).withT
+          (shiftN (computeDiagnosticState eq.ops eq.vert s).temperatureVariation dT))
+      = _ :=
+    (congrArg (eq.curlAndDivTendenciesWith (computeDiagnosticState eq.ops eq.vert s))
+      (smul_shiftN eq.phys.R (computeDiagnosticState eq.ops eq.vert s).temperatureVariation dT)).trans
+    (cdt_add eq (computeDiagnosticState eq.ops eq.vert s) _ _ n L S.pos Sd.z Sd.u Sd.v
+      (by simp [Col.smul, Sd.t]) (by simp [hd]) Sd.sdf_len Sd.ctc)
+  unfold total PrimitiveEquations.explicitTerms PrimitiveEquations.implicitTerms
+  rw [hdg]
+  apply State.ext'
+  · -- vorticity
+    show Col.add (List.map eq.ops.clip _) _ = Col.add (List.map eq.ops.clip _) _
+    rw [hcd]
+    congr 1
+    exact clip_curl_shift eq.ops L s.logSurfacePressure A.lsp_clip eq.phys.R _ dT (by rw [hcl.1, hd])
+  · -- divergence
+    show Col.add (List.map eq.ops.clip (Col.addLevel (Col.add _ _) _)) _
+      = Col.add (List.map eq.ops.clip (Col.addLevel (Col.add _ _) _)) _
+    rw [hcd]
+    exact divergence_field eq L s.logSurfacePressure A.lsp_clip _ _ s.temperatureVariation _ dT n
+      Sd.al S.tr S.t hd hcl.2 (by simp [PrimitiveEquations.kineticEnergyTendency, (Sd.shift dT hd).u, (Sd.shift dT hd).v])
+  · -- temperature
+    exact temperature_field eq s dT n L A S hd hinc h2 _ _ (adiabatic_length eq _ n Sd)
+      (adiabatic_length _ _ n (Sd.shift dT hd)) (fun i hi => thermo_level eq _ n Sd dT hd hinc i hi)
+  · rfl
+  · rfl
+
+end assembly2
 end Dino.Dynamics
